@@ -165,7 +165,12 @@ def handleHist (a : Args) : String :=
   let fnext := (W.fdeEvent cfg 4 none).2
   let rl := relocOff fnext bias
   let pB := parsePos (arg a "p")                      -- as the replica names it (relocated)
-  let p : W.Pos := ⟨pB.file, unrelocOff fnext bias pB.offset⟩
+  -- an empty file name asks for the oldest binlog: the master serves its first file (and names it in the artificial
+  -- ROTATE, which the replica skips before the format description), the replica keeps labelling with "" until a
+  -- real ROTATE names the next file
+  let emptyStart := pB.file.isEmpty
+  let rn (f : Bytes) : Bytes := if emptyStart && f == W.firstFile then [] else f
+  let p : W.Pos := ⟨if emptyStart then W.firstFile else pB.file, unrelocOff fnext bias pB.offset⟩
   let E := extOf a
   let localCivil : Nat → Bytes := look [] (parseAssoc (arg a "civil"))
   let txt : Nat → W.CellVal → Bytes := fun md v => W.text md localCivil E.fmtFloat32 E.fmtFloat64 v
@@ -178,7 +183,7 @@ def handleHist (a : Args) : String :=
     | [i, b] => packets.take (n i) ++ [hb b] ++ packets.drop (n i)
     | _ => packets
   let packets := if hasArg a "cut" then packets.take (argNat a "cut") else packets
-  let exp := (W.expected cfg h p).map fun t => { t with now := ⟨t.now.file, rl t.now.offset⟩, next := ⟨t.next.file, rl t.next.offset⟩ }
+  let exp := (W.expected cfg h p).map fun t => { t with now := ⟨rn t.now.file, rl t.now.offset⟩, next := ⟨rn t.next.file, rl t.next.offset⟩ }
   let failAt := if hasArg a "failat" then some (argNat a "failat") else none
   let failKey : Option W.Pos := match failAt with | some j => (exp[j]?).map (·.next) | none => none
   let handler : Transaction → Bool := fun tx =>
@@ -200,9 +205,9 @@ def handleHist (a : Args) : String :=
       | .deliver _ acc => 'd' :: verdicts acc bs
       | .stop _ _ => ['x']
   let vd := String.ofList (verdicts st packets)
-  let bnd := String.intercalate "," ((W.boundaries cfg h).map fun b => showPos b.file (rl b.offset))
+  let bnd := String.intercalate "," ((W.boundaries cfg h).map fun b => showPos (rn b.file) (rl b.offset))
   let ep0 := W.endPos cfg h p
-  let ep : W.Pos := ⟨ep0.file, rl ep0.offset⟩
+  let ep : W.Pos := ⟨rn ep0.file, rl ep0.offset⟩
   s!"packets={String.intercalate "," (packets.map toHex)} model={model} spec={spec} endpos={showPos ep.file ep.offset} boundaries={bnd} vd={vd}"
 
 end GV.D
